@@ -249,6 +249,10 @@ class Run:
     def violation(self, kind, body, no_input=False):
         os.makedirs(os.path.join(VERIF, "replays"), exist_ok=True)
         n = len(self.violations)
+        if n >= 5 and not no_input:
+            # enough replays written for this run; further violations are only counted
+            self.violations.append((None, no_input))
+            return
         path = os.path.join(VERIF, "replays", "%s-%d-%d.json" % (self.pid, self.seed, n))
         body = dict(body)
         body.update({"property": self.pid, "kind": kind, "seed": self.seed, "tier": self.tier,
